@@ -58,4 +58,10 @@ CLAIMS.update({
         "note": TB,
     },
 })
+CLAIMS.update({
+    "C12": {
+        "text": "Theorems over ALL spellings of the list and directive syntax: ows_and_empty_elements (arbitrary OWS / empty elements), lines_are_one_list + field_lines_combined (any split into field lines), name_case_irrelevant, quoted_argument (token vs quoted-string for delta-seconds), order_irrelevant and extensions_irrelevant (lookups independent of order and of unknown directives, for distinct names), delta_seconds_large (no wrap-around: at least min(value, 2^31) s for every digit string). PARTIAL: the single composed parse(render) statement is not assembled and elements with quoted-pairs are covered by the metamorphic check only: canonical/respelled history pairs must be observationally identical on the real transport and agree with the model.",
+        "note": TB,
+    },
+})
 NOT_APPLICABLE = {("C%02d" % i): "check not built yet (work in progress; DESIGN.md §10 gives the order of construction)" for i in range(1, 21)}
